@@ -1,5 +1,5 @@
 (* Model/C03Run.v - case types and checker evaluated on harness-generated cases (C03) *)
-From ReqV Require Export Lib.Bytes Lib.PackedBytes Model.BodyFraming Model.StreamBody Model.StreamWire Model.Interim Model.TlsConn.
+From ReqV Require Export Lib.Bytes Lib.PackedBytes Model.BodyFraming Model.StreamBody Model.StreamWire Model.Interim Model.TlsConn Model.RespRead Model.DupLength.
 
 (* what the harness saw for one exchange: error from the call, or the call succeeded and
    io.ReadAll(resp.Body) ended with [e] after [dlen] bytes; [prefix_ok]: the Go side
@@ -84,6 +84,13 @@ Inductive c03_case :=
          (coded : option (coding * N * N))
          (sent : bytes) (seen : h2_seen) (next_on_same_conn : bool)
 | H1GzCuts (hlen : N) (fr : framing) (wire z : bytes) (plain_len : N) (obs : list (N * option (bool * N)))
+(* one complete HTTP/1.1 exchange whose head carries the Content-Length lines [vals] (peer keeps
+   the connection open) *)
+| H1ClLines (hlen : N) (vals : list N) (wire body : bytes) (seen : h1_seen) (next_on_same_conn : bool)
+(* the body read through the Response API repeatedly: whether the first read (auto-read or
+   first ToBytes) ended without error, how many bytes it left in the Response, and for each
+   later ToBytes/ToString: (nil error?, length returned) *)
+| RespReads (first_ok : bool) (first_len : N) (later : list (bool * N))
 (* HTTP/1.1 over TLS: the response as the plaintext of its TLS records; per observation: how
    many records arrived whole, whether the TCP stream ended inside the next one, what the
    caller saw *)
@@ -157,6 +164,27 @@ Definition c03_check (c : c03_case) : bool :=
                end
         | _, _ => false
         end
+  | H1ClLines hlen vals wire body seen same =>
+      let o := h1_read_cl_lines hlen vals wire in
+      seen_matches body o seen &&
+      match o with
+      | BodyRead r => Bool.eqb (conn_serves_next (mkCf false false false true true) r) same
+      | CallError => negb same
+      end
+  | RespReads first_ok first_len later =>
+      let under := (repeat x00 (N.to_nat first_len), first_ok) in
+      match reads to_bytes under (S (length later)) rs_init with
+      | r0 :: rest =>
+          Bool.eqb (match r0 with Some _ => true | None => false end) first_ok
+          && (fix cmp (ms : list (option bytes)) (os : list (bool * N)) : bool :=
+                match ms, os with
+                | [], [] => true
+                | Some b :: ms', (true, n) :: os' => (N.of_nat (length b) =? n)%N && cmp ms' os'
+                | None :: ms', (false, _) :: os' => cmp ms' os'
+                | _, _ => false
+                end) rest later
+      | [] => false
+      end
   | H1TlsCuts hlen fr recs body obs =>
       forallb (fun o => let '(whole, mid, seen) := o in
                         seen_matches body (h1_read_tls hlen fr recs (N.to_nat whole) mid) seen) obs
